@@ -621,7 +621,7 @@ func (c *Ctx) paramVal(name string, t types.Type) Val {
 // aliveAssume: references held in inputs exist in the pre-state.
 func (c *Ctx) aliveAssume(x *Term, t types.Type) {
 	switch u := t.Underlying().(type) {
-	case *types.Pointer:
+	case *types.Pointer, *types.Map:
 		c.assume(Or(Eq(x, BVLit(0, 64)), Select(c.alive0, x)))
 		inputRefTerms[x] = true
 	case *types.Slice:
